@@ -115,7 +115,7 @@ func GenAssembly(rt *rapid.T, o GenOpts) AssemblySpec {
 	case "banked":
 		b.NumBanks = rapid.IntRange(1, 4).Draw(rt, "numBanks")
 		b.PipeWidth = rapid.IntRange(1, 2).Draw(rt, "pipeWidth")
-		b.PipeDepth = rapid.IntRange(1, 3).Draw(rt, "pipeDepth")
+		b.PipeDepth = rapid.IntRange(0, 3).Draw(rt, "pipeDepth") // 0: requests go straight to the post-pipeline buffer
 		b.StageLatency = rapid.IntRange(1, 3).Draw(rt, "stageLat")
 		b.PostBuf = rapid.IntRange(1, 3).Draw(rt, "postBuf")
 		b.Log2BankIntlv = uint64(rapid.IntRange(4, 8).Draw(rt, "bankIntlv"))
